@@ -58,7 +58,15 @@ pub open spec fn unsupported_feature_used(t: ast::TypeName, s: BackendAttrSuppor
     match t {
         ast::TypeName::ImplTrait(_) => !s.traits,
         ast::TypeName::Function(..) => !s.callbacks,
-        ast::TypeName::Option(inner, _) => (*inner is Primitive) && !s.option,
+        ast::TypeName::Option(inner, _) => ((*inner is Primitive) && !s.option) || (static_slice(*inner) && !s.static_slices),
+        t2 => static_slice(t2) && !s.static_slices,
+    }
+}
+// a borrowed slice / str with the 'static lifetime (backends without static_slices support must get an error)
+pub open spec fn static_slice(t: ast::TypeName) -> bool {
+    match t {
+        ast::TypeName::StrReference(Some(lt), _, _) => lt is Static,
+        ast::TypeName::PrimitiveSlice(Some(lm), _, _) => lm.0 is Static,
         _ => false,
     }
 }
